@@ -157,6 +157,7 @@ pub fn run(ctx: &mut Ctx) {
     let debug = cfg!(debug_assertions);
     ctx.stage("programs at the limits of the format");
     for s in limit_programs() { if ctx.take().is_some() { limit_case(ctx, &s) } }
+    for (_name, prog) in super::super::universes::scale::programs(!ctx.quick()) { if ctx.take().is_some() { limit_case(ctx, &show(&prog)) } }
     ctx.stage("CORPUS + wide programs");
     let root = std::env::var("VERIF_REPO").unwrap_or("/repo".to_string());
     for p in corpus_files(&root) {
